@@ -580,6 +580,8 @@ func (x *Exec) intrinsic(st *State, fr *Frame, resInstr ssa.Instruction, name st
 			return nil, false
 		}
 		x.sym.note("sync/atomic operations are sequentially consistent single steps")
+		// the operation is also an event on the address: on("atomic", &x.f) ("this counter is only ever updated atomically")
+		st.events = append(st.events, &Event{Kind: "atomic", Name: "atomic." + op, Callee: p, Args: args[1:], Index: len(st.events)})
 		switch {
 		case strings.HasPrefix(op, "Add"):
 			old := x.loadP(st, p).(Scalar)
